@@ -14,7 +14,7 @@ open List
 
 def fuStep (acc : (Option Pod × Int) × Nat) (p : Pod) : (Option Pod × Int) × Nat :=
   if !p.healthy then
-    if p.ord < acc.1.2 then ((some p, p.ord), acc.2 + 1) else (acc.1, acc.2 + 1)
+    if acc.1.1.isNone || p.ord < acc.1.2 then ((some p, p.ord), acc.2 + 1) else (acc.1, acc.2 + 1)
   else acc
 
 theorem firstUnhealthy_eq (ps : List Pod) :
@@ -44,12 +44,13 @@ theorem fuStep_foldl_inv (ps : List Pod) (h : ∀ p ∈ ps, p.ord < maxInt32) (a
     unfold fuStep
     by_cases hh : (!p.healthy) = true
     · simp only [hh, if_true]
-      by_cases hlt : p.ord < acc.1.2
+      by_cases hlt : (acc.1.1.isNone || decide (p.ord < acc.1.2)) = true
       · simp only [hlt, if_true]; right; rfl
-      · simp only [hlt, if_false]
-        rcases hacc with ⟨-, h2⟩ | h2
-        · have := h p (by simp); omega
-        · right; exact h2
+      · simp only [hlt, Bool.false_eq_true, if_false]
+        right
+        cases hx : acc.1.1 with
+        | none => simp [hx] at hlt
+        | some q => rfl
     · simp only [hh, Bool.false_eq_true, if_false]; exact hacc
 
 /-- below the int32 sentinel the scan never reports "some pod is unhealthy" without naming one -/
@@ -60,6 +61,39 @@ theorem firstUnhealthy_some (ps : List Pod) (h : ∀ p ∈ ps, p.ord < maxInt32)
   simp only [Bool.and_eq_true, decide_eq_true_eq, not_and]
   intro hpos
   rcases this with ⟨h0, -⟩ | hs
+  · omega
+  · cases hx : (ps.foldl fuStep ((none, maxInt32), 0)).1.1 with
+    | none => rw [hx] at hs; cases hs
+    | some q => simp
+
+/-- the repaired scan never reports "some pod is unhealthy" without naming one, whatever the ordinals -/
+theorem firstUnhealthy_some_any (ps : List Pod) :
+    ¬ (((firstUnhealthy ps).2 > 0 && (firstUnhealthy ps).1.isNone) = true) := by
+  rw [firstUnhealthy_eq]
+  have key : ∀ (l : List Pod) (acc : (Option Pod × Int) × Nat), (acc.2 = 0 ∨ acc.1.1.isSome = true) →
+      ((l.foldl fuStep acc).2 = 0 ∨ (l.foldl fuStep acc).1.1.isSome = true) := by
+    intro l
+    induction l with
+    | nil => intro acc h; exact h
+    | cons p rest ih =>
+      intro acc hacc
+      rw [List.foldl_cons]
+      apply ih
+      unfold fuStep
+      by_cases hh : (!p.healthy) = true
+      · simp only [hh, if_true]
+        by_cases hlt : (acc.1.1.isNone || decide (p.ord < acc.1.2)) = true
+        · simp only [hlt, if_true]; right; rfl
+        · simp only [hlt, Bool.false_eq_true, if_false]
+          right
+          cases hx : acc.1.1 with
+          | none => simp [hx] at hlt
+          | some q => rfl
+      · simp only [hh, Bool.false_eq_true, if_false]; exact hacc
+  have := key ps ((none, maxInt32), 0) (Or.inl rfl)
+  simp only [Bool.and_eq_true, decide_eq_true_eq, not_and]
+  intro hpos
+  rcases this with h0 | hs
   · omega
   · cases hx : (ps.foldl fuStep ((none, maxInt32), 0)).1.1 with
     | none => rw [hx] at hs; cases hs
@@ -170,20 +204,14 @@ theorem createOrds_append_deletes (A l : List Action) (hl : l = [] ∨ ∃ o id,
   · simp [createOrds, observe, Action.observe]
 
 theorem C01d_exact_gen (v : SetView) (cur upd : String) (f : Faults) (r : Int) (hr : v.replicas = some r)
-    (hpar : v.parallel = true) (hdel : v.deleting = false) (hf : ∀ o, f.hit 0 o = false)
-    (hmax : ∀ o ∈ desired r v.slots, o < maxInt32) :
+    (hpar : v.parallel = true) (hdel : v.deleting = false) (hf : ∀ o, f.hit 0 o = false) :
     createOrds (observe (updateStatefulSet v cur upd [] f).1.acts) = desired r v.slots := by
   have hslot : ∀ b E i, (slotOf b E ([] : List Pod) i).getD (newPod v cur upd i) = newPod v cur upd i := by
     intro b E i; simp [slotOf]
   have hcond : ∀ b E, condemnedOf b E ([] : List Pod) = [] := by intro b E; simp [condemnedOf]
   obtain ⟨p, hprep⟩ : ∃ p, prepare v cur upd [] = .ok p := by
     apply prepare_isOk hr
-    apply firstUnhealthy_some
-    intro q hq
-    simp only [hslot, hcond, List.append_nil, List.map_map, List.mem_map, Function.comp_def] at hq
-    obtain ⟨i, hi, rfl⟩ := hq
-    rw [podOrdinals_eq_desired'] at hi
-    exact hmax i hi
+    exact firstUnhealthy_some_any _
   obtain ⟨hreps, hcondemned, -, -⟩ := prepare_ok hr hprep
   simp only [hslot] at hreps
   rw [hcond] at hcondemned
